@@ -23,6 +23,10 @@ use crate::opcodes::OpcodeKind;
 
 impl Generator {
     pub(super) fn generate_internal(&mut self, source: &mut GenerationSource) -> Result<Vec<u8>> {
+        // every call produces one complete pickle: start from a clean simulated VM and an
+        // empty output buffer, whatever an earlier call on this generator left behind
+        self.reset();
+
         // decide if we'll use FRAME (only for protocol >= 4, randomly chosen)
         let use_frame = self.state.version >= Version::V4 && source.gen_bool();
 
